@@ -23,3 +23,10 @@ Definition representable (signed : bool) (n_bits v : Z) : Prop :=
 (* a two's-complement word of n_bits bits read as a signed / unsigned number *)
 Definition word_value (signed : bool) (n_bits w : Z) : Z :=
   if signed && (2 ^ (n_bits - 1) <=? w) then w - 2 ^ n_bits else w.
+
+(* the formats the deprecated float_to_fix / fix_to_float accept (validate_fp_params raises the
+   documented ValueError otherwise); n_bits <= 1023 keeps every bound a finite double *)
+Definition sbit (signed : bool) : Z := if signed then 1 else 0.
+
+Definition valid_format (signed : bool) (n_bits n_frac : Z) : Prop :=
+  1 <= n_bits <= 1023 /\ 0 <= n_frac <= n_bits - sbit signed.
